@@ -70,6 +70,13 @@ def configs(tier):
     add(d_small, c={"retries": 1}, reqs=[(0, 0), (5, 5)], via="iocb", sidetalk=True, label="iocb-2queued-sidetalk")
     add(d_big, c={"retries": 0}, reqs=[(0, rs(2))], via="iocb", answer="hold", sidetalk=True, label="iocb-hold-sidetalk")
     add(d_small, c={"retries": 1}, reqs=[(0, 0)], sidetalk=True, label="plain-sidetalk")
+    # the peer is unknown when the request is submitted and announces itself while the request is under way
+    add(d_small, c={"retries": 1}, reqs=[(0, 0)], reannounce={"maxapdu": 50}, label="unknown-peer-announces-midway")
+    add(d_small, c={"retries": 1}, reqs=[(0, 0), (5, 5)], via="iocb", reannounce={"maxapdu": 50}, label="iocb-unknown-peer-announces-midway")
+    add(d_big, c={"retries": 1}, reqs=[(rq(2), rs(2))], reannounce={"maxapdu": 50}, label="seg-unknown-peer-announces-midway")
+    # two requests outstanding at once in a process that has a far-away timer of its own
+    add(d_small, c={"retries": 1}, reqs=[(0, 0), (0, 0)], background=True, label="2-concurrent-with-background-timer")
+    add(d_big, c={"retries": 1}, reqs=[(0, rs(2)), (0, 0)], background=True, answer="hold", label="2-concurrent-hold-with-background-timer")
     # on both sides of the boundary
     for (a, b) in ((rq(1), rs(1)), (rq(1) + 1, 0), (0, rs(1) + 1)):
         add(d_big, reqs=[(a, b)], label="boundary")
